@@ -21,14 +21,20 @@
   * `strip junk t`       the tree `parseDir (extractDir t) junk (summaryOf t)` is proved to be
                          (Props/C07: `parseDir_extract`).
 
-  Not modelled: NVAR stores (files with `nvar = some _` write nothing here; property C10 owns the
-  store) and the ME partition table (no file is written for it, its JSON is not looked at by
+  NVAR stores (follow-up wp-c07b): a RAW file that carries a store (`nvar = some _`) writes the files of
+  the NVar arm of `Extract.Visit` for the entries of its store — the store being what C10's model of
+  `NewNVarStore` (FianoModel/Nvram/Model.lean, imported) reads from the file's own bytes under the erase
+  polarity of the enclosing volume (`nvOfFile`, `nvEntries`).  summary.json / ParseDir / Assemble of the
+  entries themselves are modelled separately (Uefi/ExtractNvar.lean, ExtractNvarLoad.lean); `okTree`
+  (the round-trip theorems) still asks for a tree without store.
+  Not modelled: the ME partition table (no file is written for it, its JSON is not looked at by
   `Assemble`).  The JSON text layer itself (`encoding/json`) and the file system are assumed:
   a field that is marshalled comes back with the value it had.
 
   Core Lean only.
 -/
 import FianoModel.Uefi.Assemble
+import FianoModel.Nvram.Model
 
 namespace Fiano.Uefi
 open Fiano
@@ -163,6 +169,51 @@ def exCntBiosElems : List BiosElem → Nat
 /-- one written file: path components and content -/
 abbrev Entry := List Comp × Bytes
 
+/-! ### NVAR stores: the NVar arm of `Extract.Visit` (as repaired by /repo ea9072a)
+
+    valid entry (link / data / full), no nested store   dir/GUID/<name>-<%#x offset>.bin  = buf[DataOffset:]
+    valid entry whose value is a store                   nothing; its entries go below dir/GUID/<name>-<%#x offset>
+    invalid entry                                        dir/GUID/<%#x offset>.nvar        = buf
+  `<name>` is the stored name with every path separator replaced by `_`, cut to 64 bytes.  The nested
+  store of an entry is what `parseContent` attached: `Nvram.nestedOf` (C10's model keeps it as a function
+  of the entry); the first argument bounds the nesting depth (`Nvram.depthFuel` suffices). -/
+
+def extNvar : Bytes := asc ['.','n','v','a','r']
+def dash : UInt8 := 0x2d
+def underscore : UInt8 := 0x5f
+
+/-- `strings.ReplaceAll(name, "/", "_")`, then `name[:64]` -/
+def nvSanitize (name : Bytes) : Bytes := (name.map (fun c => if c = slash then underscore else c)).take 64
+
+/-- `fmt.Sprintf("%v-%#x", name, f.Offset)` -/
+def nvName (v : Nvram.NVar) : Comp := nvSanitize v.name ++ dash :: hexStr v.offset
+
+/-- the path component that tells the entries of one store apart -/
+def nvKey (pol : Nat) (v : Nvram.NVar) : Comp :=
+  if v.type.isValid then
+    match Nvram.nestedOf pol v with
+    | some _ => nvName v
+    | none => nvName v ++ extBin
+  else hexStr v.offset ++ extNvar
+
+/-- the files written for the entries of a store visited with DirPath `dir` -/
+def nvEntries : Nat → Nat → List Comp → List Nvram.NVar → List Entry
+  | 0, _, _, _ => []
+  | d + 1, pol, dir, es =>
+    es.flatMap (fun v =>
+      if v.type.isValid then
+        match Nvram.nestedOf pol v with
+        | some ns => nvEntries d pol (dir ++ [guidStr v.guid, nvName v]) ns.entries
+        | none => [(dir ++ [guidStr v.guid, nvName v ++ extBin], Nvram.content v)]
+      else [(dir ++ [guidStr v.guid, hexStr v.offset ++ extNvar], v.buf)])
+
+/-- the files written for the store of a RAW file visited with DirPath `dir` (= GUID/index of the
+    file): the store is re-read from the file's own bytes, as `NewFile` did under erase polarity `pol` -/
+def nvOfFile (pol : Nat) (dir : List Comp) (i : FileInfo) (buf : Bytes) : List Entry :=
+  match Nvram.parseStore pol (buf.drop i.dataOffset) with
+  | .ok s => nvEntries (Nvram.depthFuel s) pol dir s.entries
+  | .error _ => []
+
 mutual
 def exSection (dir : List Comp) (idx : Nat) : Section → List Entry
   | .mk i buf encap =>
@@ -176,22 +227,24 @@ def exNodes (dir : List Comp) (idx : Nat) : List Node → List Entry
 def exSections (dir : List Comp) (idx : Nat) : List Section → List Entry
   | [] => []
   | s :: ss => exSection dir idx s ++ exSections dir (idx + exCntSection s) ss
-def exFile (dir : List Comp) (idx : Nat) : File → List Entry
+def exFile (pol : Nat) (dir : List Comp) (idx : Nat) : File → List Entry
   | .mk i buf secs =>
     match i.nvar with
-    | some _ => []                      -- NVAR entries: not modelled (C10)
+    | some _ => nvOfFile pol (fileDir dir i idx) i buf     -- `File.ApplyChildren` visits only the store
     | none =>
       match secs with
       | [] => [(fileLeaf dir i idx, buf)]
       | _ :: _ => exSections (fileDir dir i idx) (idx + 1) secs
-def exFiles (dir : List Comp) (idx : Nat) : List File → List Entry
+def exFiles (pol : Nat) (dir : List Comp) (idx : Nat) : List File → List Entry
   | [] => []
-  | f :: fs => exFile dir idx f ++ exFiles dir (idx + exCntFile f) fs
+  | f :: fs => exFile pol dir idx f ++ exFiles pol dir (idx + exCntFile f) fs
 def exFv (dir : List Comp) (idx : Nat) : Fv → List Entry
   | .mk i buf files =>
     match files with
     | [] => [(fvLeaf dir i false, buf)]
-    | _ :: _ => (fvLeaf dir i true, buf.take i.dataOffset) :: exFiles (fvDir dir i) idx files
+    | _ :: _ =>
+      -- the files of a volume were parsed under the volume's own erase polarity
+      (fvLeaf dir i true, buf.take i.dataOffset) :: exFiles (polOfAttrs i.attrs).toNat (fvDir dir i) idx files
 end
 
 def exBiosElems (dir : List Comp) (idx : Nat) : List BiosElem → List Entry
